@@ -3,7 +3,7 @@ CONSTANTS
   MaxLen = 1
   OpKinds = {"insert", "update", "delete", "select", "readrows", "symbols", "symbad", "drop", "sql", "sqlbad", "insertk", "insertp", "bogus"}
   CondKinds = {"none", "never", "always", "norows", "badparse", "badeval", "never+always", "never+badeval", "never+badparse", "never+never"}
-  Dsns = {"good", "nodir"}
+  Dsns = {"good"}
   Prune = FALSE
   ForceClean = 0
   Impl = "fixed"
